@@ -448,18 +448,27 @@ func (c *Ctx) callBySpec(spec *FuncSpec, fn *types.Func, x *ast.CallExpr, st *St
 	sig := fn.Type().(*types.Signature)
 	var results []Val
 	pureKey := ""
+	var pureRes []Val
 	if spec.Pure {
-		pureKey = "purespec:" + specKey(spec.Pkg, spec.Name) + "("
-		for _, k := range sortedKeys(binds) {
-			pureKey += k + "=" + valKey(c, binds[k]) + ","
+		var pargs []Val
+		if r, ok := binds["$recv"]; ok {
+			pargs = append(pargs, r)
 		}
-		if v, ok := c.specEnv[pureKey]; ok {
-			return []Val(v.(TupleV))
+		for i := 0; i < sig.Params().Len(); i++ {
+			if v, ok := binds[sig.Params().At(i).Name()]; ok {
+				pargs = append(pargs, v)
+			}
 		}
+		pureRes = c.pureApply("spec:"+specKey(spec.Pkg, spec.Name), pargs, sig.Results(), st)
 	}
 	for i := 0; i < sig.Results().Len(); i++ {
 		rv := sig.Results().At(i)
-		v := c.symbolic(st, "r_"+fn.Name(), rv.Type())
+		var v Val
+		if i < len(pureRes) {
+			v = pureRes[i]
+		} else {
+			v = c.symbolic(st, "r_"+fn.Name(), rv.Type())
+		}
 		if sv, ok := v.(SliceV); ok {
 			sv.Prov = "callee"
 			v = sv
@@ -657,30 +666,9 @@ func (c *Ctx) abstractCall(x *ast.CallExpr, fn *types.Func, st *State) []Val {
 	}
 	pure := fn != nil && fn.Pkg() != nil && purePkgs[fn.Pkg().Path()]
 	if pure {
-		// pure library calls are functions of receiver and arguments: the same call yields the same value
-		key := "pure:" + name + "("
-		for _, a := range args {
-			key += valKey(c, a) + ","
-		}
-		if v, ok := c.specEnv[key]; ok {
-			if tv, isT := v.(TupleV); isT {
-				return tv
-			}
-			return []Val{v}
-		}
-		defer func(key string) {
-			if r := recover(); r != nil {
-				panic(r)
-			}
-		}(key)
-		out := c.abstractResults(x, st)
-		if len(out) == 1 {
-			c.specEnv[key] = out[0]
-		} else if len(out) > 1 {
-			c.specEnv[key] = TupleV(out)
-		}
+		// pure library calls are (uninterpreted) functions of receiver and arguments: congruence gives the same value for the same arguments
 		c.abstracted("pure call " + name)
-		return out
+		return c.pureApply(name, args, c.info.TypeOf(x), st)
 	}
 	if !pure {
 		for _, a := range args {
@@ -882,4 +870,121 @@ func valKey(c *Ctx, v Val) string {
 		return "opaque"
 	}
 	return fmt.Sprintf("%T", v)
+}
+
+// pureApply: the results of a pure call as applications of uninterpreted functions of the arguments' SMT terms
+func (c *Ctx) pureApply(name string, args []Val, t types.Type, st *State) []Val {
+	var terms, sorts []string
+	ok := true
+	for _, a := range args {
+		switch v := a.(type) {
+		case Scalar:
+			switch v.S.K {
+			case "i2b":
+				terms, sorts = append(terms, v.T), append(sorts, "Int")
+			case "str":
+				terms, sorts = append(terms, v.T), append(sorts, "Int")
+			default:
+				terms, sorts = append(terms, v.T), append(sorts, v.S.smt())
+			}
+		case PtrV:
+			terms, sorts = append(terms, v.Ref), append(sorts, "Int")
+		case IfaceV:
+			terms, sorts = append(terms, v.Tag, v.Ref), append(sorts, "Int", "Int")
+		case ErrV:
+			terms, sorts = append(terms, v.T), append(sorts, "Int")
+		case SliceV:
+			if id, isC := c.strID(v); isC {
+				terms, sorts = append(terms, fmt.Sprint(id)), append(sorts, "Int")
+			} else if v.Id != "" {
+				terms, sorts = append(terms, v.Id), append(sorts, "Int")
+			} else {
+				terms, sorts = append(terms, c.sliceArr(st, v), v.Off, v.Len), append(sorts, c.byteArrSort(), c.idx().smt(), c.idx().smt())
+			}
+		case StructV:
+			for _, f := range sortedKeys(v.F) {
+				if sv, isS := v.F[f].(Scalar); isS && sv.S.K != "i2b" {
+					terms, sorts = append(terms, sv.T), append(sorts, sv.S.smt())
+				}
+			}
+		case OpaqueV:
+		default:
+			ok = false
+		}
+	}
+	var rtypes []types.Type
+	switch tt := t.(type) {
+	case *types.Tuple:
+		for i := 0; i < tt.Len(); i++ {
+			rtypes = append(rtypes, tt.At(i).Type())
+		}
+	case nil:
+	default:
+		if tt.String() != "()" {
+			rtypes = append(rtypes, tt)
+		}
+	}
+	base := "P_" + sanitize(name)
+	app := func(suffix, rs string) string {
+		fn := fmt.Sprintf("%s_%s_%d", base, suffix, len(terms))
+		c.declareFun(fn, "("+strings.Join(sorts, " ")+") "+rs)
+		if len(terms) == 0 {
+			return fn
+		}
+		return "(" + fn + " " + strings.Join(terms, " ") + ")"
+	}
+	var out []Val
+	for i, rt := range rtypes {
+		sfx := fmt.Sprint(i)
+		if !ok {
+			out = append(out, c.symbolic(st, "r", rt))
+			continue
+		}
+		if s, isS := c.sortOf(rt); isS {
+			v := c.def("pr", s, app(sfx, s.smt()))
+			c.assumeRange(v, s)
+			out = append(out, Scalar{v, s})
+			continue
+		}
+		switch u := rt.Underlying().(type) {
+		case *types.Pointer:
+			nt, _ := u.Elem().(*types.Named)
+			r := c.defRaw("pr", "Int", app(sfx, "Int"))
+			c.assume("(>= " + r + " 0)")
+			out = append(out, PtrV{Ref: r, Named: nt})
+		case *types.Interface:
+			if types.Implements(rt, errorIface) && u.NumMethods() == 1 {
+				e := c.defRaw("pe", "Int", app(sfx, "Int"))
+				c.assume("(>= " + e + " 0)")
+				out = append(out, ErrV{e})
+				continue
+			}
+			tag := c.defRaw("ptag", "Int", app(sfx+"tag", "Int"))
+			ref := c.defRaw("pref", "Int", app(sfx+"ref", "Int"))
+			c.assume(and("(>= "+tag+" 0)", and("(>= "+ref+" 0)", implies("(= "+tag+" 0)", "(= "+ref+" 0)"))))
+			out = append(out, IfaceV{Tag: tag, Ref: ref, T: rt})
+		case *types.Basic:
+			if isString(rt) {
+				ln := c.defRaw("plen", c.idx().smt(), app(sfx+"len", c.idx().smt()))
+				c.assume(c.lenBounds(ln))
+				arr := c.defRaw("parr", c.byteArrSort(), app(sfx+"arr", c.byteArrSort()))
+				out = append(out, SliceV{Arr: arr, Off: c.ilit(0), Len: ln, Cap: ln, Nil: "false", Prov: "callee", IsStr: true})
+				continue
+			}
+			out = append(out, c.symbolic(st, "r", rt))
+		case *types.Slice:
+			if isByte(u.Elem()) {
+				ln := c.defRaw("plen", c.idx().smt(), app(sfx+"len", c.idx().smt()))
+				c.assume(c.lenBounds(ln))
+				arr := c.defRaw("parr", c.byteArrSort(), app(sfx+"arr", c.byteArrSort()))
+				nl := c.defRaw("pnil", "Bool", app(sfx+"nil", "Bool"))
+				out = append(out, SliceV{Arr: arr, Off: c.ilit(0), Len: ln, Cap: ln, Nil: nl, Prov: "callee"})
+				continue
+			}
+			out = append(out, c.symbolic(st, "r", rt))
+		default:
+			out = append(out, c.symbolic(st, "r", rt))
+		}
+	}
+	return out
 }
